@@ -232,95 +232,73 @@ theorem c11_zero_required (fty : FieldTy) (n : Nat) :
 def WellTypedScalar (t : ItemTy) (s : Scalar) : Prop :=
   ∀ ms, t = .enum ms → ∃ nm, s = .enum nm ∧ nm ∈ ms
 
-theorem post_argDefault_scalar (t : ItemTy) (s : Scalar) (h : WellTypedScalar t s) :
-    ∀ v ∈ argDefault (.scalar t) [Val.sc s], postprocess (.scalar t) v = .ok (.sc s) := by
-  intro v hv
+/-- what `argDefault` does to one entry (enum members are handed to argparse by name) -/
+def argDefault1 (fty : FieldTy) (v : Val) : Val :=
+  match fty, v with
+  | .scalar (.enum _), .sc (.enum nm) => .sc (.str nm)
+  | _, v => v
+
+theorem argDefault1_id (fty : FieldTy) (h : ∀ ms, fty ≠ .scalar (.enum ms)) (v : Val) :
+    argDefault1 fty v = v := by
+  unfold argDefault1
+  split
+  · rename_i ms _; exact absurd rfl (h ms)
+  · rfl
+
+theorem argDefault_eq_map (fty : FieldTy) (p : List Val) : argDefault fty p = p.map (argDefault1 fty) := by
+  cases fty with
+  | scalar t =>
+    cases t with
+    | enum ms =>
+      simp only [argDefault]
+      apply List.map_congr_left
+      intro v _
+      cases v with
+      | sc s => cases s <;> rfl
+      | list l => rfl
+      | tuple l => rfl
+    | int =>
+      have hid : ∀ v, argDefault1 (.scalar .int) v = v := argDefault1_id _ (by intro ms h; cases h)
+      simp only [argDefault]; rw [List.map_congr_left (g := id) (fun v _ => hid v)]; simp
+    | float =>
+      have hid : ∀ v, argDefault1 (.scalar .float) v = v := argDefault1_id _ (by intro ms h; cases h)
+      simp only [argDefault]; rw [List.map_congr_left (g := id) (fun v _ => hid v)]; simp
+    | str =>
+      have hid : ∀ v, argDefault1 (.scalar .str) v = v := argDefault1_id _ (by intro ms h; cases h)
+      simp only [argDefault]; rw [List.map_congr_left (g := id) (fun v _ => hid v)]; simp
+    | bool =>
+      have hid : ∀ v, argDefault1 (.scalar .bool) v = v := argDefault1_id _ (by intro ms h; cases h)
+      simp only [argDefault]; rw [List.map_congr_left (g := id) (fun v _ => hid v)]; simp
+  | list t =>
+    have hid : ∀ v, argDefault1 (.list t) v = v := argDefault1_id _ (by intro ms h; cases h)
+    simp only [argDefault]; rw [List.map_congr_left (g := id) (fun v _ => hid v)]; simp
+  | tuple ts =>
+    have hid : ∀ v, argDefault1 (.tuple ts) v = v := argDefault1_id _ (by intro ms h; cases h)
+    simp only [argDefault]; rw [List.map_congr_left (g := id) (fun v _ => hid v)]; simp
+  | vtuple t =>
+    have hid : ∀ v, argDefault1 (.vtuple t) v = v := argDefault1_id _ (by intro ms h; cases h)
+    simp only [argDefault]; rw [List.map_congr_left (g := id) (fun v _ => hid v)]; simp
+
+/-- a default VALUE OF THE FIELD'S OWN TYPE: handing it to argparse (enum by name) and
+    post-processing what comes back reproduces it. Holds for every well-typed scalar
+    (`stable_scalar`) and every list / tuple of the field's container kind, of ANY length
+    (`stable_container`). -/
+def StableDefault (fty : FieldTy) (v : Val) : Prop := postprocess fty (argDefault1 fty v) = .ok v
+
+instance (fty : FieldTy) (v : Val) : Decidable (StableDefault fty v) := by
+  unfold StableDefault; exact inferInstance
+
+theorem stable_scalar (t : ItemTy) (s : Scalar) (h : WellTypedScalar t s) :
+    StableDefault (.scalar t) (.sc s) := by
+  unfold StableDefault
   cases t with
   | enum ms =>
     obtain ⟨nm, rfl, hnm⟩ := h ms rfl
-    simp [argDefault] at hv
-    subst hv
-    simp [postprocess, hnm]
-  | int => simp [argDefault] at hv; subst hv; rfl
-  | float => simp [argDefault] at hv; subst hv; rfl
-  | str => simp [argDefault] at hv; subst hv; rfl
-  | bool => simp [argDefault] at hv; subst hv; rfl
-
-/-- the packaged default of a scalar field, distributed: one value per destination, each the
-    post-processing of the corresponding `argDefault` entry -/
-theorem distribute_defaults (fty : FieldTy) (n : Nat) (ds : List Val) (hn : 2 ≤ n)
-    (hl : ds.length = n) : distribute fty n ds = mapE (postprocess fty) ds := by
-  simp only [distribute, duplicate_n fty n ds hn hl]
-  rw [List.take_of_length_le (by omega)]
-
-/-- **absent, scalar field with a default**: every destination gets the dataclass default -/
-theorem c11_absent (t : ItemTy) (s : Scalar) (n : Nat) (hn : 2 ≤ n) (h : WellTypedScalar t s) :
-    runField (.scalar t) n (.field (some (.sc s))) none = .ok (List.replicate n (.sc s)) := by
-  have hpack : setupDefault (.scalar t) n (.field (some (.sc s)))
-      = .ok (some (argDefault (.scalar t) (List.replicate n (.sc s)))) := by
-    simp [setupDefault, rawDefault, defaultPack, FieldTy.isContainer, FieldTy.isList, FieldTy.isTuple,
-      Raw.isPyList]
-  have harg : argDefault (.scalar t) (List.replicate n (Val.sc s))
-      = List.replicate n (match t, s with | .enum _, .enum nm => Val.sc (.str nm) | _, s => Val.sc s) := by
-    cases t <;> cases s <;> simp [argDefault]
-  simp only [runField, hpack]
-  rw [harg, distribute_defaults _ _ _ hn (by simp)]
-  apply mapE_replicate
-  cases t with
-  | enum ms =>
-    obtain ⟨nm, rfl, hnm⟩ := h ms rfl
-    simp [postprocess, hnm]
+    simp [argDefault1, postprocess, hnm]
   | int => cases s <;> rfl
   | float => cases s <;> rfl
   | str => cases s <;> rfl
   | bool => cases s <;> rfl
-
-/-- **absent, per-destination defaults** (nested members with default instances): destination `i`
-    gets the attribute of ITS default instance -/
-theorem c11_absent_parents (t : ItemTy) (ds : List Val) (n : Nat) (hn : 2 ≤ n) (hl : ds.length = n)
-    (h : ∀ v ∈ ds, ∃ s, v = .sc s ∧ WellTypedScalar t s) :
-    runField (.scalar t) n (.parents ds) none = .ok ds := by
-  have hraw : rawDefault (.parents ds) = some (.many ds) := by
-    match ds, hl with
-    | [], hl => simp at hl; omega
-    | [a], hl => simp at hl; omega
-    | a :: b :: r, _ => rfl
-  have hpack : setupDefault (.scalar t) n (.parents ds) = .ok (some (argDefault (.scalar t) ds)) := by
-    simp [setupDefault, hraw, defaultPack, FieldTy.isContainer, FieldTy.isList, FieldTy.isTuple,
-      Raw.isPyList, Raw.items, hl]
-  have hlen : (argDefault (.scalar t) ds).length = n := by
-    cases t <;> simp [argDefault, hl]
-  simp only [runField, hpack]
-  rw [distribute_defaults _ _ _ hn hlen]
-  -- entry-wise: argDefault then postprocess is the identity on well-typed scalars
-  clear hpack hraw hlen hl
-  induction ds with
-  | nil => cases t <;> rfl
-  | cons a as ih =>
-    obtain ⟨s, rfl, hs⟩ := h a (by simp)
-    have ih' := ih (fun v hv => h v (by simp [hv]))
-    cases t with
-    | enum ms =>
-      obtain ⟨nm, rfl, hnm⟩ := hs ms rfl
-      simp only [argDefault, List.map_cons] at ih' ⊢
-      simp [mapE, postprocess, hnm, ih']
-    | int => simp only [argDefault] at ih' ⊢; simp [mapE, postprocess, ih']
-    | float => simp only [argDefault] at ih' ⊢; simp [mapE, postprocess, ih']
-    | str => simp only [argDefault] at ih' ⊢; simp [mapE, postprocess, ih']
-    | bool => simp only [argDefault] at ih' ⊢; simp [mapE, postprocess, ih']
-
-/-- **absent, no default**: argparse rejects the command line (the option is required) -/
-theorem c11_absent_required (fty : FieldTy) (n : Nat) :
-    runField fty n (.field none) none = .error (.exit2 .required) := by
-  simp [runField, setupDefault, rawDefault]
-
-/-! ### list / tuple fields: whole containers -/
-
-/-- D12: the field-level default is a Python list whose length equals the number of destinations -/
-def D12 (fty : FieldTy) (n : Nat) (l : List Scalar) : Prop := fty.isList = true ∧ l.length = n
-
-instance (fty : FieldTy) (n : Nat) (l : List Scalar) : Decidable (D12 fty n l) := by
-  unfold D12; exact inferInstance
 
 theorem post_mkContainer (fty : FieldTy) (l : List Scalar) (hc : fty.isContainer = true) :
     postprocess fty (mkContainer fty l) = .ok (mkContainer fty l) := by
@@ -330,84 +308,82 @@ theorem post_mkContainer (fty : FieldTy) (l : List Scalar) (hc : fty.isContainer
   | tuple ts => simp [mkContainer, FieldTy.isTuple, postprocess]
   | vtuple t => simp [mkContainer, FieldTy.isTuple, postprocess]
 
-theorem argDefault_container (fty : FieldTy) (hc : fty.isContainer = true) (p : List Val) :
-    argDefault fty p = p := by
-  cases fty with
-  | scalar t => simp [FieldTy.isContainer, FieldTy.isList, FieldTy.isTuple] at hc
-  | list t => rfl
-  | tuple ts => rfl
-  | vtuple t => rfl
+theorem stable_container (fty : FieldTy) (l : List Scalar) (hc : fty.isContainer = true) :
+    StableDefault fty (mkContainer fty l) := by
+  unfold StableDefault
+  have : argDefault1 fty (mkContainer fty l) = mkContainer fty l := by
+    cases fty with
+    | scalar t => simp [FieldTy.isContainer, FieldTy.isList, FieldTy.isTuple] at hc
+    | list t => rfl
+    | tuple ts => rfl
+    | vtuple t => rfl
+  rw [this]
+  exact post_mkContainer fty l hc
 
-/-- the full statement for container defaults … -/
-def AbsentWhole : Prop :=
-  ∀ (fty : FieldTy) (n : Nat) (l : List Scalar), fty.isContainer = true → 2 ≤ n →
+theorem mapE_map_id {α : Type} (f : α → Res α) (g : α → α) (l : List α)
+    (h : ∀ a ∈ l, f (g a) = .ok a) : mapE f (l.map g) = .ok l := by
+  induction l with
+  | nil => rfl
+  | cons a as ih =>
+    simp [mapE, h a (by simp), ih (fun x hx => h x (by simp [hx]))]
+
+/-- n packaged defaults are handed out position by position -/
+theorem distribute_defaults (fty : FieldTy) (n : Nat) (ds : List Val) (hn : 2 ≤ n)
+    (hl : ds.length = n) : distribute fty n ds = mapE (postprocess fty) ds := by
+  simp only [distribute, duplicate_n fty n ds hn hl]
+  rw [List.take_of_length_le (by omega)]
+
+/-- **absent, the field has a default** — every field type (scalar, list, tuple), any default of
+    the field's type (a list or tuple of ANY length, also length n), any n ≥ 2: every destination
+    gets the dataclass default, whole. -/
+theorem c11_absent (fty : FieldTy) (v : Val) (n : Nat) (hn : 2 ≤ n) (h : StableDefault fty v) :
+    runField fty n (.field (some v)) none = .ok (List.replicate n v) := by
+  have hpack : setupDefault fty n (.field (some v))
+      = .ok (some (argDefault fty (List.replicate n v))) := by
+    simp [setupDefault, rawDefault, defaultPack]
+  simp only [runField, hpack]
+  rw [argDefault_eq_map, distribute_defaults _ _ _ hn (by simp), List.map_replicate]
+  exact mapE_replicate _ _ _ h n
+
+/-- scalar instance of `c11_absent` -/
+theorem c11_absent_scalar (t : ItemTy) (s : Scalar) (n : Nat) (hn : 2 ≤ n) (h : WellTypedScalar t s) :
+    runField (.scalar t) n (.field (some (.sc s))) none = .ok (List.replicate n (.sc s)) :=
+  c11_absent _ _ n hn (stable_scalar t s h)
+
+/-- list / tuple instance of `c11_absent`: the default container is never taken apart, whatever
+    its length (the former D12 case `l.length = n` included) -/
+theorem c11_absent_container (fty : FieldTy) (l : List Scalar) (n : Nat) (hn : 2 ≤ n)
+    (hc : fty.isContainer = true) :
     runField fty n (.field (some (mkContainer fty l))) none
-      = .ok (List.replicate n (mkContainer fty l))
+      = .ok (List.replicate n (mkContainer fty l)) :=
+  c11_absent _ _ n hn (stable_container fty l hc)
 
-/-- … is refuted by D12: n = 2, `l: List[int] = [1, 2]` gives the destinations `1` and `2` -/
-theorem c11_absent_witness : ¬ AbsentWhole := by
-  intro h
-  have := h (.list .int) 2 [.int 1, .int 2] rfl (by omega)
-  revert this
-  decide
-
-/-- the D12 outcome itself: destination i receives ELEMENT i of the default list -/
-theorem c11_d12_witness :
-    runField (.list .int) 2 (.field (some (.list [.int 1, .int 2]))) none
-      = .ok [.sc (.int 1), .sc (.int 2)] := by decide
-
-/-- **absent, container field (partial)**: unless the default is a list of length n (D12), every
-    destination gets the whole default container -/
-theorem c11_absent_container_partial (fty : FieldTy) (n : Nat) (l : List Scalar)
-    (hc : fty.isContainer = true) (hn : 2 ≤ n) (hex : ¬ D12 fty n l) :
-    runField fty n (.field (some (mkContainer fty l))) none
-      = .ok (List.replicate n (mkContainer fty l)) := by
-  have hpack : defaultPack fty n (.one (mkContainer fty l)) = .ok (List.replicate n (mkContainer fty l)) := by
-    unfold defaultPack
-    simp only [hc, ↓reduceIte]
-    by_cases hlen : l.length = n
-    · have hnl : fty.isList = false := by
-        cases hli : fty.isList with
-        | false => rfl
-        | true => exact absurd ⟨hli, hlen⟩ hex
-      have htu : fty.isTuple = true := by
-        simp only [FieldTy.isContainer, hnl, Bool.false_or] at hc; exact hc
-      simp [mkContainer, htu, Raw.len, Raw.isPyList, hlen]
-    · cases htu : fty.isTuple <;> simp [mkContainer, htu, Raw.len, hlen]
-  simp only [runField, setupDefault, rawDefault, hpack, argDefault_container fty hc]
-  rw [distribute_defaults _ _ _ hn (by simp)]
-  exact mapE_replicate _ _ _ (post_mkContainer fty l hc) n
-
-/-- **absent, container field, per-destination defaults**: nested members with default instances
-    are not affected by D12 — destination i gets the container of its own default instance -/
-theorem c11_absent_container_parents (fty : FieldTy) (n : Nat) (ds : List Val)
-    (hc : fty.isContainer = true) (hn : 2 ≤ n) (hl : ds.length = n)
-    (h : ∀ v ∈ ds, ∃ l, v = mkContainer fty l) :
+/-- **absent, per-destination default instances** (`add_arguments(..., default=inst)` at every
+    destination, or nested members with default instances): destination `i` gets the attribute of
+    ITS default instance — every field type -/
+theorem c11_absent_parents (fty : FieldTy) (ds : List Val) (n : Nat) (hn : 2 ≤ n)
+    (hl : ds.length = n) (h : ∀ v ∈ ds, StableDefault fty v) :
     runField fty n (.parents ds) none = .ok ds := by
-  have hraw : rawDefault (.parents ds) = some (.many ds) := by
+  have hraw : rawDefault (.parents ds) = some (ds, true) := by
     match ds, hl with
     | [], hl => simp at hl; omega
     | [a], hl => simp at hl; omega
     | a :: b :: r, _ => rfl
-  have hpack : defaultPack fty n (.many ds) = .ok ds := by
-    simp [defaultPack, hc, Raw.len, hl, Raw.isPyList, Raw.items]
-  simp only [runField, setupDefault, hraw, hpack, argDefault_container fty hc]
-  rw [distribute_defaults _ _ _ hn hl]
-  apply mapE_id
-  intro v hv
-  obtain ⟨l, rfl⟩ := h v hv
-  exact post_mkContainer fty l hc
+  have hne : (DefaultSrc.parents ds = DefaultSrc.parents []) = False := by
+    simp only [DefaultSrc.parents.injEq, eq_iff_iff, iff_false]
+    intro he; subst he; simp at hl; omega
+  have hpack : setupDefault fty n (.parents ds) = .ok (some (argDefault fty ds)) := by
+    simp [setupDefault, hne, hraw, defaultPack, hl]
+  simp only [runField, hpack]
+  rw [argDefault_eq_map, distribute_defaults _ _ _ hn (by simp [hl])]
+  exact mapE_map_id _ _ _ h
 
-/-- a token that is one bare Python-literal word (D13: `4`, `1.5`, `True`) -/
-def bareLiteral : Tok → Bool
-  | .bare w => match classify w with
-    | .lit _ => true
-    | _ => false
-  | _ => false
+/-- **absent, no default**: argparse rejects the command line (the option is required) -/
+theorem c11_absent_required (fty : FieldTy) (n : Nat) :
+    runField fty n (.field none) none = .error (.exit2 .required) := by
+  simp [runField, setupDefault, rawDefault]
 
-def BareLiteral (tok : Tok) : Prop := bareLiteral tok = true
-
-instance (tok : Tok) : Decidable (BareLiteral tok) := by unfold BareLiteral; exact inferInstance
+/-! ### list / tuple fields: every token is one whole container -/
 
 theorem fallbackParse_container (fty : FieldTy) (tok : Tok) (v : Val)
     (h : fallbackParse fty tok = .ok v) : ∃ l, v = mkContainer fty l := by
@@ -416,9 +392,9 @@ theorem fallbackParse_container (fty : FieldTy) (tok : Tok) (v : Val)
   · simp only [Except.ok.injEq] at h; exact ⟨_, h.symm⟩
   · cases h
 
-/-- every token except a bare literal word parses to a whole container of the field's kind -/
+/-- EVERY token parses to a whole container of the field's kind -/
 theorem parseContainerTok_container (fty : FieldTy) (tok : Tok) (v : Val)
-    (hb : ¬ BareLiteral tok) (h : parseContainerTok fty tok = .ok v) : ∃ l, v = mkContainer fty l := by
+    (h : parseContainerTok fty tok = .ok v) : ∃ l, v = mkContainer fty l := by
   unfold parseContainerTok at h
   cases tok with
   | bare w =>
@@ -426,8 +402,11 @@ theorem parseContainerTok_container (fty : FieldTy) (tok : Tok) (v : Val)
     split at h
     · cases h
     · exact fallbackParse_container fty _ v h
-    · rename_i l hl
-      exact absurd (by simp [BareLiteral, bareLiteral, hl]) hb
+    · split at h
+      · cases h
+      · cases h
+      · exact fallbackParse_container fty _ v h
+      · simp only [Except.ok.injEq] at h; exact ⟨_, h.symm⟩
   | spaced ws => exact fallbackParse_container fty _ v h
   | comma ws =>
     simp only at h
@@ -453,46 +432,27 @@ theorem parseContainerTok_container (fty : FieldTy) (tok : Tok) (v : Val)
       · simp only [Except.ok.injEq] at h; exact ⟨_, h.symm⟩
 
 theorem parseTok_container (fty : FieldTy) (hc : fty.isContainer = true) (tok : Tok) (v : Val)
-    (hb : ¬ BareLiteral tok) (h : parseTok fty tok = .ok v) : ∃ l, v = mkContainer fty l := by
+    (h : parseTok fty tok = .ok v) : ∃ l, v = mkContainer fty l := by
   cases fty with
   | scalar t => simp [FieldTy.isContainer, FieldTy.isList, FieldTy.isTuple] at hc
-  | list t => exact parseContainerTok_container _ tok v hb h
-  | tuple ts => exact parseContainerTok_container _ tok v hb h
-  | vtuple t => exact parseContainerTok_container _ tok v hb h
+  | list t => exact parseContainerTok_container _ tok v h
+  | tuple ts => exact parseContainerTok_container _ tok v h
+  | vtuple t => exact parseContainerTok_container _ tok v h
 
-/-- the full statement: list / tuple fields are distributed as whole containers … -/
-def WholeContainers : Prop :=
-  ∀ (fty : FieldTy) (n : Nat) (src : DefaultSrc) (toks : List Tok) (out : List Val),
-    fty.isContainer = true → 2 ≤ n → runField fty n src (some toks) = .ok out →
-    ∀ v ∈ out, ∃ l, v = mkContainer fty l
+/-- **a bare item is a one-element container**: a token that is one Python-literal word (`4`,
+    `1.5`, `True`) which the item parser accepts gives `[item]` / `(item,)` -/
+theorem c11_bare_item_singleton (fty : FieldTy) (w : Str) (l : Lit) (s : Scalar)
+    (hw : classify w = .lit l) (hconv : convLit fty.itemTy l = .ok (some s)) :
+    parseContainerTok fty (.bare w) = .ok (mkContainer fty [s]) := by
+  simp [parseContainerTok, hw, hconv]
 
-/-- … is refuted by D13: `--l 4 5` with n = 2 is split element-wise -/
-theorem c11_whole_containers_witness : ¬ WholeContainers := by
-  intro h
-  have := h (.list .int) 2 (.field none) [.bare "4".toList, .bare "5".toList]
-    [.sc (.int 4), .sc (.int 5)] rfl (by omega) (by decide) (.sc (.int 4)) (by simp)
-  obtain ⟨l, hl⟩ := this
-  simp [mkContainer, FieldTy.isTuple] at hl
-
-/-- the D13 outcomes themselves: a single token `4` yields the bare `4` at every destination;
-    for a tuple field the bare item makes `postprocess` raise TypeError -/
-theorem c11_d13_witness :
-    runField (.list .int) 2 (.field none) (some [.bare "4".toList]) = .ok [.sc (.int 4), .sc (.int 4)]
-    ∧ runField (.list .int) 2 (.field none) (some [.bare "4".toList, .bare "5".toList])
-        = .ok [.sc (.int 4), .sc (.int 5)]
-    ∧ runField (.tuple [.int, .int]) 2 (.field none) (some [.bare "3".toList, .bare "4".toList])
-        = .error (.raise .typeError) := by decide
-
-/-- **whole containers (partial)**: when no token is a bare Python-literal word (D13), every
-    destination of a list / tuple field receives a whole container of the field's kind: with n
-    tokens the i-th token's container, with one token that token's container (see `c11_n`,
-    `c11_one`), never an element of it. Any n ≥ 2, any number and shape of tokens. -/
-theorem c11_whole_containers_partial (fty : FieldTy) (n : Nat) (src : DefaultSrc) (toks : List Tok)
+/-- **whole containers**: every destination of a list / tuple field receives a whole container
+    of the field's kind — with n tokens the i-th token's container, with one token that token's
+    container (`c11_n`, `c11_one`), never an element of it. Any n, any number and shape of tokens. -/
+theorem c11_whole_containers (fty : FieldTy) (n : Nat) (src : DefaultSrc) (toks : List Tok)
     (out : List Val) (hc : fty.isContainer = true)
-    (hex : ∀ tok ∈ toks, ¬ BareLiteral tok)
     (hrun : runField fty n src (some toks) = .ok out) :
     ∀ v ∈ out, ∃ l, v = mkContainer fty l := by
-  -- unfold the run
   cases hsetup : setupDefault fty n src with
   | error e => simp [runField, hsetup] at hrun
   | ok d =>
@@ -505,12 +465,10 @@ theorem c11_whole_containers_partial (fty : FieldTy) (n : Nat) (src : DefaultSrc
         split at hargs
         · cases hargs
         · exact hargs
-      -- every parsed value is a whole container
       have hvs : ∀ v ∈ vs, ∃ l, v = mkContainer fty l := by
         intro v hv
-        obtain ⟨tok, htok, hp⟩ := mapE_mem _ _ _ hparse v hv
-        exact parseTok_container fty hc tok v (hex tok htok) hp
-      -- duplicate keeps them whole
+        obtain ⟨tok, _, hp⟩ := mapE_mem _ _ _ hparse v hv
+        exact parseTok_container fty hc tok v hp
       cases hdup : duplicate fty n vs with
       | error e => simp [hdup] at hrun
       | ok ws =>
@@ -535,6 +493,17 @@ theorem c11_whole_containers_partial (fty : FieldTy) (n : Nat) (src : DefaultSrc
         rw [post_mkContainer fty l hc] at hp
         simp only [Except.ok.injEq] at hp
         exact ⟨l, hp.symm⟩
+
+/-- the same for the absent option: the destinations receive whole default containers -/
+theorem c11_whole_containers_absent (fty : FieldTy) (l : List Scalar) (n : Nat) (hn : 2 ≤ n)
+    (hc : fty.isContainer = true) (out : List Val)
+    (hrun : runField fty n (.field (some (mkContainer fty l))) none = .ok out) :
+    ∀ v ∈ out, v = mkContainer fty l := by
+  rw [c11_absent_container fty l n hn hc] at hrun
+  simp only [Except.ok.injEq] at hrun
+  subst hrun
+  intro v hv
+  exact (List.mem_replicate.mp hv).2
 
 /-! ### the whole-parse model used by the correspondence check reduces to `runField` -/
 
@@ -590,37 +559,52 @@ theorem appendNew_nodup (acc ds : List Str) (h : (acc ++ ds).Nodup) : appendNew 
 /-- a wrapper without nested members, registered at destination `d`, carrying default instances `f` -/
 def leafW (d : Str) (f : List Nat) : DW := .mk [d] f []
 
-theorem mergeAll_leaves (acc : List Str) (f : List Nat) (regs : List (Str × List Nat))
+theorem extendDefaults_assoc (root : Bool) (f r rest : List Nat) :
+    extendDefaults root (extendDefaults root f r) rest = extendDefaults root f (r ++ rest) := by
+  unfold extendDefaults
+  cases root <;> cases f <;> simp
+
+theorem mergeAll_leaves (root : Bool) (acc : List Str) (f : List Nat) (regs : List (Str × List Nat))
     (h : (acc ++ regs.map (·.1)).Nodup) :
-    mergeAll (.mk acc f []) (regs.map (fun r => leafW r.1 r.2))
-      = .mk (acc ++ regs.map (·.1)) (f ++ (regs.map (·.2)).flatten) [] := by
+    mergeAll root (.mk acc f []) (regs.map (fun r => leafW r.1 r.2))
+      = .mk (acc ++ regs.map (·.1)) (extendDefaults root f (regs.map (·.2)).flatten) [] := by
   induction regs generalizing acc f with
-  | nil => simp [mergeAll]
+  | nil => cases root <;> cases f <;> simp [mergeAll, extendDefaults]
   | cons r rs ih =>
     have hd : r.1 ∉ acc := by
       intro hm
       have := List.nodup_append.mp h
       exact this.2.2 r.1 hm r.1 (by simp) rfl
     have h' : ((acc ++ [r.1]) ++ rs.map (·.1)).Nodup := by simpa using h
-    have := ih (acc ++ [r.1]) (f ++ r.2) h'
+    have := ih (acc ++ [r.1]) (extendDefaults root f r.2) h'
     simp only [mergeAll, List.map_cons, List.foldl_cons] at this ⊢
     simp only [leafW, DW.merge, appendNew, hd, ↓reduceIte, mergeChildren]
     simp only [leafW] at this
-    rw [this]
+    rw [this, extendDefaults_assoc]
     simp
 
 /-- **registration order**: the same class registered at n pairwise different destinations
     `d₀ … d_{n-1}` (any n) is merged into ONE wrapper whose destinations are exactly
-    `d₀ … d_{n-1}` in registration order, with the default instances in the same order. -/
-theorem c11_registration_order (d0 : Str) (f0 : List Nat) (regs : List (Str × List Nat))
+    `d₀ … d_{n-1}` in registration order; the default instances follow in the same order
+    (for directly registered classes only if the FIRST registration has one: otherwise the code
+    drops them all — see `extendDefaults`). -/
+theorem c11_registration_order (root : Bool) (d0 : Str) (f0 : List Nat) (regs : List (Str × List Nat))
     (h : (d0 :: regs.map (·.1)).Nodup) :
-    (mergeAll (leafW d0 f0) (regs.map (fun r => leafW r.1 r.2))).dests = d0 :: regs.map (·.1)
-    ∧ (mergeAll (leafW d0 f0) (regs.map (fun r => leafW r.1 r.2))).defaults
-        = f0 ++ (regs.map (·.2)).flatten := by
-  have := mergeAll_leaves [d0] f0 regs (by simpa using h)
+    (mergeAll root (leafW d0 f0) (regs.map (fun r => leafW r.1 r.2))).dests = d0 :: regs.map (·.1)
+    ∧ (mergeAll root (leafW d0 f0) (regs.map (fun r => leafW r.1 r.2))).defaults
+        = extendDefaults root f0 (regs.map (·.2)).flatten := by
+  have := mergeAll_leaves root [d0] f0 regs (by simpa using h)
   simp only [leafW] at this ⊢
   rw [this]
   exact ⟨rfl, rfl⟩
+
+/-- every registration carries a default instance: none is lost, the order is kept -/
+theorem c11_registration_order_defaults (root : Bool) (d0 : Str) (i0 : Nat) (regs : List (Str × List Nat))
+    (h : (d0 :: regs.map (·.1)).Nodup) :
+    (mergeAll root (leafW d0 [i0]) (regs.map (fun r => leafW r.1 r.2))).defaults
+        = i0 :: (regs.map (·.2)).flatten := by
+  rw [(c11_registration_order root d0 [i0] regs h).2]
+  cases root <;> simp [extendDefaults]
 
 /-! ### non-vacuity: the hypotheses are satisfiable by non-trivial inputs -/
 
@@ -646,27 +630,36 @@ example : WellTypedScalar (.enum ["RED".toList, "BLUE".toList]) (.enum "BLUE".to
   intro ms h; cases h; exact ⟨_, rfl, by simp⟩
 example : runField (.scalar .str) 5 (.field (some (.sc (.str "x".toList)))) none
     = .ok (List.replicate 5 (.sc (.str "x".toList))) := by decide
--- c11_absent_parents: three sibling members with different default instances
+example : StableDefault (.list .int) (.list [.int 1, .int 2]) := by decide
+-- c11_absent_parents: three sibling members / registrations with different default instances
 example : runField (.scalar .int) 3 (.parents [.sc (.int 1), .sc (.int 5), .sc (.int 1)]) none
     = .ok [.sc (.int 1), .sc (.int 5), .sc (.int 1)] := by decide
--- c11_absent_container_partial: the exclusion leaves real cases (length ≠ n; tuple of length n)
-example : ¬ D12 (.list .int) 2 [.int 1, .int 2, .int 3] := by decide
-example : ¬ D12 (.tuple [.int, .int]) 2 [.int 3, .int 4] := by decide
+example : runField (.list .int) 2 (.parents [.list [.int 1, .int 2], .list [.int 3]]) none
+    = .ok [.list [.int 1, .int 2], .list [.int 3]] := by decide
+-- default instances at only some destinations: the packaging assertion of the code fails
+example : runField (.scalar .int) 3 (.parents [.sc (.int 1), .sc (.int 5)]) none
+    = .error (.raise .assertionError) := by decide
+-- regression (former D12, repaired by 8cfbe97): a list default of length n is NOT split
+example : runField (.list .int) 2 (.field (some (.list [.int 1, .int 2]))) none
+    = .ok [.list [.int 1, .int 2], .list [.int 1, .int 2]] := by decide
 example : runField (.tuple [.int, .int]) 2 (.field (some (.tuple [.int 3, .int 4]))) none
     = .ok [.tuple [.int 3, .int 4], .tuple [.int 3, .int 4]] := by decide
--- c11_absent_container_parents: a list default of length n on nested members is NOT split
-example : runField (.list .int) 2 (.parents [.list [.int 1, .int 2], .list [.int 1, .int 2]]) none
-    = .ok [.list [.int 1, .int 2], .list [.int 1, .int 2]] := by decide
--- c11_whole_containers_partial: tokens that are not bare literals (a bare word for a str list is fine)
-example : ∀ tok ∈ [Tok.bare "abc".toList, .spaced ["a".toList, "b".toList]], ¬ BareLiteral tok := by decide
+-- regression (former D13, repaired by 30c2aa6): bare items are one-element containers
+example : runField (.list .int) 2 (.field none) (some [.bare "4".toList])
+    = .ok [.list [.int 4], .list [.int 4]] := by decide
+example : runField (.list .int) 2 (.field none) (some [.bare "4".toList, .bare "5".toList])
+    = .ok [.list [.int 4], .list [.int 5]] := by decide
+example : runField (.tuple [.int, .int]) 2 (.field none) (some [.bare "3".toList, .bare "4".toList])
+    = .ok [.tuple [.int 3], .tuple [.int 4]] := by decide
+-- c11_whole_containers: mixed token shapes
 example : runField (.list .str) 2 (.field none) (some [.bare "abc".toList, .spaced ["a".toList, "b".toList]])
     = .ok [.list [.str "abc".toList], .list [.str "a".toList, .str "b".toList]] := by decide
 -- c11_registration_order: three registrations
-example : (mergeAll (leafW "a".toList []) ([("b".toList, []), ("c".toList, [])].map (fun r => leafW r.1 r.2))).dests
+example : (mergeAll true (leafW "a".toList []) ([("b".toList, []), ("c".toList, [])].map (fun r => leafW r.1 r.2))).dests
     = ["a".toList, "b".toList, "c".toList] := by decide
 -- nested members merged pair-wise (P{m:C} at two destinations, the P wrappers merge first)
-example : DW.merge (.mk ["a".toList] [] [leafW "a.m".toList [0]]) (.mk ["b".toList] [] [leafW "b.m".toList [1]])
+example : DW.merge true (.mk ["a".toList] [] [leafW "a.m".toList [0]]) (.mk ["b".toList] [] [leafW "b.m".toList [1]])
     = .mk ["a".toList, "b".toList] [] [.mk ["a.m".toList, "b.m".toList] [0, 1] []] := by
-  simp [DW.merge, mergeChildren, leafW, appendNew]
+  simp [DW.merge, mergeChildren, leafW, appendNew, extendDefaults]
 
 end SpVerif.C11
